@@ -9,7 +9,7 @@ from .core import SimCrash, Viol, judge
 from .simfs import Seams, SimFS, SimPath
 
 BUFFER_SIZES = [1, 7, 64, 4096, 1 << 30]
-SAVE_FAULTS = ["eacces", "enoent", "emfile", "enospc", "eio", "eio_close", "crash"]
+SAVE_FAULTS = ["eacces", "enoent", "emfile", "enospc", "eio", "eio_close", "crash", "eintr", "eagain"]
 LOAD_FAULTS = ["eacces", "emfile", "short_read", "crash"]
 
 
